@@ -34,6 +34,19 @@
 (*                                                                         *)
 (* Values: the j-th value of source s is (s, j).  Access i passes 100+i.   *)
 (*                                                                         *)
+(* A source FAILS by a step of ThrowSteps; the step tells the KIND of      *)
+(* exception that leaves its body: a user type, a type that is not a       *)
+(* std::exception, or one of the library's own types (exceptions.h:14-35)  *)
+(* -- what a source that relays other cocls objects fails with: the value  *)
+(* of a pending future / of a generator past its end, one more call of a   *)
+(* finished generator, a dropped promise.  The library uses the same types *)
+(* for its own signalling (generator.h:212-247,417); the aggregate tells   *)
+(* an ended source by done() (:115) and NOT by what value()/next() throw,  *)
+(* so every kind is treated alike (:127-130): whatever escapes a source is *)
+(* what the consumer gets (obs.k = the kind, obs.s = the source; the       *)
+(* replayer observes the dynamic type and the identity of the object),     *)
+(* never a silent end of that source.                                      *)
+(*                                                                         *)
 (* Threaded = FALSE: one thread.  A blocking access / the destructor is    *)
 (* never made to wait for an operation only the same thread could          *)
 (* complete.  Threaded = TRUE: the consumer thread may block (pc =         *)
@@ -45,7 +58,7 @@ EXTENDS Naturals, Sequences, FiniteSets, TLC
 
 CONSTANTS NS,           \* number of sources
           WithArg,      \* generator<int,int> sources
-          SrcKinds,     \* subset of {"ynull","yield","apend","throw","return"}
+          SrcKinds,     \* subset of {"ynull","yield","apend","return"} \cup ThrowSteps
           MaxSteps,     \* bound on a source's script (its last step is forced to end the source)
           MaxAcc,       \* bound on consumer accesses
           MaxAfterEnd,  \* accesses made after the end / exception was reported
@@ -54,6 +67,15 @@ CONSTANTS NS,           \* number of sources
           Threaded
 
 Src == 1..NS
+
+(* the steps by which a source fails, and the kind of exception each one lets out of the source's body *)
+ThrowSteps == {"throw", "throw_vnr", "throw_nomore", "throw_cancel", "throw_nonstd"}
+ExcKindOf(step) == CASE step = "throw"        -> "user"     \* a user type derived from std::exception
+                     [] step = "throw_vnr"    -> "vnr"      \* cocls::value_not_ready_exception, exceptions.h:22
+                     [] step = "throw_nomore" -> "nomore"   \* cocls::no_more_values_exception, exceptions.h:29
+                     [] step = "throw_cancel" -> "cancel"   \* cocls::await_canceled_exception, exceptions.h:14
+                     [] step = "throw_nonstd" -> "nonstd"   \* a type that is not a std::exception
+ExcKinds == {ExcKindOf(t) : t \in ThrowSteps}
 
 VARIABLES ast,      \* aggregate body: "init" | "run" | "pop" (suspended in co_await queue.pop()) | "yield" | "final" | "gone"
           count,    \* controller::_count
@@ -72,7 +94,7 @@ VARIABLES ast,      \* aggregate body: "init" | "run" | "pop" (suspended in co_a
           sgot,     \* per source: arguments received [j, v]: j = 0 for co_yield nullptr, else as result of the j-th co_yield
           nops,
           cscript,  \* history: class of each access
-          obs,      \* per access [r, s, v]
+          obs,      \* per access [r, s, v, k]: result "pending" | "val" | "end" | "exc", source, sequence number, kind of exception ("none")
           out,      \* class of the outstanding access ("none")
           run,      \* source whose body is executing (0)
           ctx,      \* who resumed it: "init_charge" | "loop_charge" | "ext"
@@ -83,7 +105,10 @@ vars == <<ast, count, queue, waiter, aexp, cur, ci, h, sst, sseq, sscr, sloc, sp
           cscript, obs, out, run, ctx, base, alive, pc>>
 
 ArgVal(i) == IF WithArg THEN 100 + i ELSE 0
-Ob(r, s, v) == [r |-> r, s |-> s, v |-> v]
+Ob(r, s, v) == [r |-> r, s |-> s, v |-> v, k |-> "none"]
+(* the exception that left source s (the last step of its script) *)
+ThrownBy(s) == ExcKindOf(sscr[s][Len(sscr[s])])
+ObExc(s) == [r |-> "exc", s |-> s, v |-> 0, k |-> ThrownBy(s)]
 InFlight == {s \in Src : sst[s] = "await"}
 
 Init ==
@@ -165,7 +190,8 @@ AggLoop ==
               /\ UNCHANGED <<h, queue>>
     /\ UNCHANGED <<count, aexp, cur, ci, sst, sseq, sscr, sloc, spar, sop, sgot, nops, cscript, obs, out, run, ctx, base, alive>>
 
-(* g.done() -> fin; g.value() throws -> exp, fin; else co_yield g.value(), :115-131 *)
+(* g.done() -> fin; g.value() rethrows what left the source (generator.h:413-414), of whatever type -> exp, fin;
+   else co_yield g.value(), :115-131 *)
 AggGot ==
     /\ pc = "agg_got"
     /\ CASE sst[h] = "done" ->
@@ -188,7 +214,7 @@ AggEnd ==
     /\ pc = "agg" /\ count = 0
     /\ sst' = [s \in Src |-> IF sst[s] \in {"done", "exc"} THEN "gone" ELSE "crash"]
     /\ spar' = [s \in Src |-> 0]
-    /\ obs' = [obs EXCEPT ![Len(obs)] = IF aexp # 0 THEN Ob("exc", aexp, 0) ELSE Ob("end", 0, 0)]
+    /\ obs' = [obs EXCEPT ![Len(obs)] = IF aexp # 0 THEN ObExc(aexp) ELSE Ob("end", 0, 0)]
     /\ ast' = "final" /\ out' = "none" /\ pc' = "idle"
     /\ UNCHANGED <<count, queue, waiter, aexp, cur, ci, h, sseq, sscr, sloc, sop, sgot, nops, cscript, run, ctx, base, alive>>
 
@@ -202,7 +228,7 @@ AfterSrc == CASE ctx = "init_charge" -> "agg_init"
 SrcStep(s, kind) ==
     /\ pc = "src" /\ run = s /\ kind \in SrcKinds
     /\ Len(sscr[s]) < MaxSteps
-    /\ Len(sscr[s]) = MaxSteps - 1 => kind \in {"return", "throw"}
+    /\ Len(sscr[s]) = MaxSteps - 1 => kind \in {"return"} \cup ThrowSteps
     /\ kind = "ynull" => (WithArg /\ sscr[s] = <<>>)
     /\ sscr' = [sscr EXCEPT ![s] = Append(@, kind)]
     /\ CASE kind = "ynull" ->       \* co_yield nullptr on first activation: the argument of the first access
@@ -219,7 +245,7 @@ SrcStep(s, kind) ==
               /\ sop' = [sop EXCEPT ![s] = nops + 1] /\ nops' = nops + 1
               /\ pc' = AfterSrc /\ run' = 0
               /\ UNCHANGED <<sgot, sseq, sloc>>
-         [] kind = "throw" ->
+         [] kind \in ThrowSteps -> \* an exception of kind ExcKindOf(kind) leaves the body: unhandled_exception, generator.h:174-176
               /\ sloc' = [sloc EXCEPT ![s].dtor = @ + 1]
               /\ sst' = [sst EXCEPT ![s] = "exc"]
               /\ pc' = "push"
@@ -321,9 +347,10 @@ TypeOK ==
     /\ Len(obs) = Len(cscript)
     /\ count \in 0..NS
     /\ waiter \in {"none", "agg", "drain"}
+    /\ \A i \in 1..Len(obs) : obs[i].k \in ExcKinds \cup {"none"}
 
-Ended(s) == sscr[s] # <<>> /\ sscr[s][Len(sscr[s])] \in {"return", "throw"}
-Threw(s) == sscr[s] # <<>> /\ sscr[s][Len(sscr[s])] = "throw"
+Ended(s) == sscr[s] # <<>> /\ sscr[s][Len(sscr[s])] \in {"return"} \cup ThrowSteps
+Threw(s) == sscr[s] # <<>> /\ sscr[s][Len(sscr[s])] \in ThrowSteps
 ValsOf(s) == SelectSeq(obs, LAMBDA o : o.r = "val" /\ o.s = s)
 IdxOf(s, j) == CHOOSE i \in 1..Len(obs) : obs[i].r = "val" /\ obs[i].s = s /\ obs[i].v = j
 
@@ -347,14 +374,20 @@ EndsIffAllEnded ==
     /\ \A i \in 1..Len(obs) : obs[i].r = "pending" => i = Len(obs)
     /\ \A i, j \in 1..Len(obs) : (i < j /\ obs[i].r \in {"end", "exc"}) => obs[j].r = "end"
 
-(* a source's exception is what the aggregate finally reports (instead of a plain end), after all values *)
+(* a source's exception is what the aggregate finally reports (instead of a plain end), after all values: the
+   very exception that left a failed source, whatever its kind; a failure of any kind is never taken for the end of
+   that source (an aggregate with a failed source does not end plainly), a source that ended normally is never
+   reported as failed *)
 ExceptionReportedOthersKept ==
     /\ ast = "final" =>
           LET fi == CHOOSE i \in 1..Len(obs) : obs[i].r \in {"end", "exc"} /\ \A j \in 1..(i-1) : obs[j].r = "val"
           IN IF \E s \in Src : Threw(s)
                THEN obs[fi].r = "exc" /\ Threw(obs[fi].s)
                ELSE obs[fi].r = "end"
-    /\ \A i \in 1..Len(obs) : obs[i].r = "exc" => (obs[i].s \in Src /\ Threw(obs[i].s))
+    /\ \A i \in 1..Len(obs) : obs[i].r = "exc" => (obs[i].s \in Src /\ Threw(obs[i].s) /\ obs[i].k = ThrownBy(obs[i].s))
+    /\ \A i \in 1..Len(obs) : obs[i].r # "exc" => obs[i].k = "none"
+    /\ \A s \in Src : sst[s] = "exc" <=> (Threw(s) /\ sst[s] # "gone")
+    /\ aexp # 0 => (aexp \in Src /\ Threw(aexp))
 
 (* co_yield nullptr gives the first access's argument; the j-th co_yield of source s returns the argument
    of the access that followed the one which returned (s, j) *)
